@@ -168,6 +168,130 @@ Theorem C02_visiting_order_observable :
 Proof. exact DiffMemoProofs.visiting_order_observable. Qed.
 Print Assumptions C02_visiting_order_observable.
 
+(* ---- the table WITHOUT the alias guard (Diff/DiffMemoFinal.v) ----
+   The exact relation between the run with DeepDiff's run-wide table and the memo-free model, for ALL
+   well-formed inputs, every hasher and every DeepHash option set: the levels reported with the table
+   are those of the memo-free run whose item hash is read off the table the run ends with
+   ([hfin mf a] = the hash the table mf serves for a: that of the first ==-equal atom ever inserted, else
+   a's own), as multisets - the table only grows at its end and a lookup returns the first match. *)
+From DD Require Diff.DiffMemoFinal.
+
+Theorem C02_table_is_memo_free_run :
+  forall H o udiff ops skip excl c t1 t2,
+    wf t1 = true -> wf t2 = true ->
+    let mf := DiffMemoFinal.final_table H o udiff ops excl c skip t1 t2 in
+    DiffMemoFinal.pure_entries H o mf /\
+    Permutation.Permutation (fst (fst (DiffMemo.diff_m H o udiff ops skip excl c [] t1 t2 [] [])))
+                            (fst (diff (DiffMemoFinal.hfin H o mf) udiff ops skip excl c t1 t2 [] [])) /\
+    Permutation.Permutation (snd (fst (DiffMemo.diff_m H o udiff ops skip excl c [] t1 t2 [] [])))
+                            (snd (diff (DiffMemoFinal.hfin H o mf) udiff ops skip excl c t1 t2 [] [])).
+Proof. intros. apply DiffMemoFinal.run_diff_m_is_memo_free; assumption. Qed.
+Print Assumptions C02_table_is_memo_free_run.
+
+(* the same from any starting table and for every later table *)
+Theorem C02_table_is_memo_free :
+  forall H o udiff ops skip excl c m t1 t2 p1 p2,
+    wf t1 = true -> wf t2 = true ->
+    let r := DiffMemo.diff_m H o udiff ops skip excl c m t1 t2 p1 p2 in
+    DiffMemoFinal.ext H o m (snd r) /\
+    forall mf, DiffMemoFinal.extends (snd r) mf ->
+      Permutation.Permutation (fst (fst r)) (fst (diff (DiffMemoFinal.hfin H o mf) udiff ops skip excl c t1 t2 p1 p2)) /\
+      Permutation.Permutation (snd (fst r)) (snd (diff (DiffMemoFinal.hfin H o mf) udiff ops skip excl c t1 t2 p1 p2)).
+Proof. intros. apply DiffMemoFinal.diff_m_final; assumption. Qed.
+Print Assumptions C02_table_is_memo_free.
+
+(* both clauses for the run with the table, NO alias guard: ==-aliased set members (1 / 1.0 / Decimal(1))
+   anywhere in the inputs are allowed.  Copy clause: every hasher, every DeepHash option set. *)
+Theorem C02_copy_empty_with_table_any :
+  forall H o udiff ops excl c t,
+    thr_num c <= thr_den c -> tiling ops -> wf t = true ->
+    fst (fst (DiffMemo.run_diff_m H o udiff ops (fun _ => false) excl c t t)) = [].
+Proof. intros. apply DiffMemoFinal.run_diff_m_copy_empty_any; assumption. Qed.
+Print Assumptions C02_copy_empty_with_table_any.
+
+(* Soundness: the hash the table serves still separates members that are not Python-equal
+   ([hfin_separates]: 1 and 1.0 may share a hash, 1 and 2 never do), which is all that soundness needs
+   ([C02_empty_sound_separating] below). *)
+Theorem C02_empty_sound_with_table_any :
+  forall H o udiff ops excl c t1 t2,
+    (forall s t, H s = H t -> s = t) -> Hash.HashModel.plain o = true -> valid_ops ops ->
+    wf t1 = true -> wf t2 = true ->
+    inputs_ok (keep_key c) Hash.HashModel.tag_safe_atom t1 = true ->
+    inputs_ok (keep_key c) Hash.HashModel.tag_safe_atom t2 = true ->
+    fst (fst (DiffMemo.run_diff_m H o udiff ops (fun _ => false) excl c t1 t2)) = [] -> py_eqv t1 t2 = true.
+Proof. intros. eapply DiffMemoFinal.run_diff_m_empty_sound_any; eassumption. Qed.
+Print Assumptions C02_empty_sound_with_table_any.
+
+(* C02_empty_sound under the weaker hypothesis on the item hash: equal hashes only for ==-equal members
+   (instead of: only for identical members) *)
+Theorem C02_empty_sound_separating :
+  forall hatom udiff ops excl c ok t1 t2,
+    (forall a b, ok a = true -> ok b = true -> hatom a = hatom b -> py_eq a b = true) -> valid_ops ops ->
+    wf t1 = true -> wf t2 = true ->
+    inputs_ok (keep_key c) ok t1 = true -> inputs_ok (keep_key c) ok t2 = true ->
+    fst (run_diff hatom udiff ops (fun _ => false) excl c t1 t2) = [] -> py_eqv t1 t2 = true.
+Proof. intros. eapply run_empty_sound_eq; eassumption. Qed.
+Print Assumptions C02_empty_sound_separating.
+
+(* ---- numeric arrays (numpy), Diff/NpModel.v: a model of _diff_numpy_array on n-dimensional numeric arrays
+   ([narr] = dtype, shape, row-major elements; [nwf] = at least one axis, as many elements as the shape says,
+   every element of the dtype's type): a dtype difference is a type change of the whole array; np.array_equal
+   is the fast path; different shapes -> both .tolist() and the LIST model above on them; same shape -> the rows
+   (1-d: the array) position by position.  Tied to DeepDiff by the stream c02np of harness/npcommon.py. *)
+From DD Require Diff.NpModel Diff.NpProofs.
+
+(* copy clause: an equal array (same dtype, shape, elements pointwise ==), whatever the opcode oracle and mode *)
+Theorem C02_numpy_copy_empty :
+  forall ops zip a b, NpModel.array_eqb a b = true -> NpModel.np_run_diff ops zip a b = [].
+Proof. intros. apply NpProofs.np_copy_empty_eq; assumption. Qed.
+Print Assumptions C02_numpy_copy_empty.
+
+(* soundness, EXACTLY: the diff of two arrays is empty iff the dtypes agree, the elements agree, and the shapes agree
+   up to and including the first zero-length axis ([upto0]) ... *)
+Theorem C02_numpy_empty_iff :
+  forall ops zip a b, valid_ops ops -> NpModel.nwf a = true -> NpModel.nwf b = true ->
+    (NpModel.np_run_diff ops zip a b = [] <->
+     NpModel.dtype a = NpModel.dtype b /\ NpProofs.upto0 (NpModel.shape a) = NpProofs.upto0 (NpModel.shape b) /\
+     NpModel.data a = NpModel.data b).
+Proof. intros. apply NpProofs.np_empty_iff_shape; assumption. Qed.
+Print Assumptions C02_numpy_empty_iff.
+
+(* ... so an empty diff means equal arrays whenever one of them has an element or the shapes are equal ... *)
+Theorem C02_numpy_empty_sound_partial :
+  forall ops zip a b, valid_ops ops -> NpModel.nwf a = true -> NpModel.nwf b = true ->
+    NpModel.size a <> 0 \/ NpModel.size b <> 0 \/ NpModel.shape a = NpModel.shape b ->
+    NpModel.np_run_diff ops zip a b = [] -> a = b.
+Proof. intros. eapply NpProofs.np_empty_sound_partial_eq; eassumption. Qed.
+Print Assumptions C02_numpy_empty_sound_partial.
+
+(* ... and not otherwise: zeros((0,3)) vs zeros((0,2)), zeros((0,)) vs zeros((0,1)) - empty diff for every valid
+   opcode oracle, different shapes (finding C02-EMPTY-ARRAY-SHAPE; replayed on the implementation by c02.py) *)
+Theorem C02_numpy_empty_sound_refuted_empty_shape :
+  forall ops zip, valid_ops ops ->
+    NpModel.np_run_diff ops zip NpProofs.z03 NpProofs.z02 = [] /\ NpModel.np_run_diff ops zip NpProofs.z0 NpProofs.z01 = [] /\
+    NpModel.shape NpProofs.z03 <> NpModel.shape NpProofs.z02 /\ NpModel.shape NpProofs.z0 <> NpModel.shape NpProofs.z01.
+Proof. intros. apply NpProofs.np_empty_sound_refuted_empty_shape_all; assumption. Qed.
+Print Assumptions C02_numpy_empty_sound_refuted_empty_shape.
+
+(* same dtype and shape: the reported levels are exactly the positions where the elements differ (values_changed at
+   the index path, old / new = the two elements): the recursive definition for arrays *)
+Theorem C02_numpy_same_shape_is_pointwise :
+  forall ops zip a b, NpModel.nwf a = true -> NpModel.nwf b = true ->
+    NpModel.dtype a = NpModel.dtype b -> NpModel.shape a = NpModel.shape b ->
+    NpModel.np_run_diff ops zip a b = NpProofs.np_spec a b.
+Proof. intros. apply NpProofs.np_same_shape_is_pointwise; assumption. Qed.
+Print Assumptions C02_numpy_same_shape_is_pointwise.
+
+Theorem C02_numpy_guards_satisfiable :
+  valid_ops one_block /\ NpModel.nwf NpProofs.ex_a = true /\ NpModel.nwf NpProofs.ex_b = true /\
+  (NpModel.size NpProofs.ex_a <> 0 \/ NpModel.size NpProofs.ex_b <> 0 \/ NpModel.shape NpProofs.ex_a = NpModel.shape NpProofs.ex_b) /\
+  length (NpModel.np_run_diff one_block false NpProofs.ex_a NpProofs.ex_b) = 1.
+Proof.
+  destruct NpProofs.np_guards_satisfiable as (V & Wa & Wb & _ & G & E & _).
+  split; [exact V|]. split; [exact Wa|]. split; [exact Wb|]. split; [exact G|]. rewrite E. reflexivity.
+Qed.
+Print Assumptions C02_numpy_guards_satisfiable.
+
 (* ------------------------------------------------------------------ *)
 (** EXTENSION beyond the property's stated domain: values holding INSTANCES OF CLASSES
     (objects with attributes, Obj/ObjValue.v [ovalue]).  The ordered diff on such values is the
